@@ -77,6 +77,7 @@ class Report:
         self.mir_hash = None; self.mir_dump_s = 0.0
         self.outside = []
         self.self_test = []
+        self.cross = {'queries': 0, 'agree': 0, 'other_unknown': 0, 'disagree': [], 'solvers': ['/usr/bin/z3 (4.8.12)', 'cvc5 1.0.3'], 'seconds': 0.0}
 
     # ---- obligations
     def holds(self, name, seconds=0.0, detail=''):
@@ -111,11 +112,36 @@ class Report:
             s.add(*cons)
             t0 = time.time(); r = s.check(); d1 = time.time() - t0; self.solver_s += d1; dt += d1
             if r != z3.unknown: break
+        if r != z3.unknown and (self.tier == 'thorough' or os.environ.get('VERIF_XSOLVER')) and self.cross['queries'] < 150: self._cross(name, s, r)
         if r == z3.unsat:
             self.holds(name, dt); return 'holds', None
         if r == z3.sat:
             return 'violated', s.model()
         self.unknown(name, 'solver: ' + s.reason_unknown()); return 'unknown', None
+
+    def _cross(self, name, s, r):
+        """thorough tier: the same query, printed as SMT-LIB2, is given to two independent solver builds (z3 4.8.12 binary, cvc5); a definite
+        answer that contradicts z3 5.1 makes the run inconclusive (exit 2); `unknown`/timeout/parse errors of the other solver are only counted"""
+        t0 = time.time(); want = 'unsat' if r == z3.unsat else 'sat'
+        path = '/tmp/verif-xs-%d.smt2' % os.getpid()
+        try:
+            txt = s.to_smt2()
+            with open(path, 'w') as f: f.write('(set-logic ALL)\n' + txt)
+            self.cross['queries'] += 1; definite = 0
+            for cmd in (['/usr/bin/z3', '-T:20', path], ['cvc5', '--lang', 'smt2', '--tlimit=20000', path]):
+                try:
+                    p = subprocess.run(cmd, stdout=subprocess.PIPE, stderr=subprocess.STDOUT, text=True, timeout=40)
+                    out = p.stdout.strip().split('\n'); ans = out[0].strip() if out else ''
+                    if '(error' in p.stdout or ans not in ('sat', 'unsat'): continue
+                    definite += 1
+                    if ans != want: self.cross['disagree'].append({'obligation': name, 'z3-5.1': want, cmd[0]: ans}); self.errors.append('solvers disagree on %s: z3 5.1 %s, %s %s' % (name, want, cmd[0], ans))
+                except Exception: continue
+            if definite: self.cross['agree'] += 1 if not any(d['obligation'] == name for d in self.cross['disagree']) else 0
+            else: self.cross['other_unknown'] += 1
+        finally:
+            try: os.remove(path)
+            except OSError: pass
+            self.cross['seconds'] = round(self.cross['seconds'] + time.time() - t0, 1)
 
 def parts(rep, fns):
     """run independent parts of a check; a part that cannot be encoded makes the run inconclusive without hiding the others"""
@@ -179,7 +205,7 @@ def finish(rep, level='model_checking', technique=''):
             'solver_seconds': round(rep.solver_s, 2), 'mir_dump_seconds': round(rep.mir_dump_s, 1), 'mir_source_hash': rep.mir_hash,
             'covers': rep.covers, 'obligation_list': rep.obligations[:400], 'outside_the_claim': rep.outside,
             'translator_validation_mismatches': rep.validation_mismatch, 'notes': rep.notes[:60], 'errors': rep.errors[:40],
-            'self_test': rep.self_test,
+            'self_test': rep.self_test, 'cross_solver': rep.cross,
             'exhaustive': False,
         },
         'assumptions': rep.assumptions, 'wall_s': round(wall, 2), 'violations': len(new_violations),
